@@ -126,10 +126,10 @@ func checkID(ctx *pbt.Ctx, c IDCase) error {
 			return nil
 		}
 	}
-	lim := new(big.Int).Lsh(big.NewInt(1), 62)
+	// satoshi amounts are uint64: every amount is in the domain as long as neither total overflows
 	inSum, outSum := ref.FeeSumIn(m), ref.FeeSumOut(m)
-	if inSum.Cmp(lim) > 0 || outSum.Cmp(lim) > 0 {
-		ctx.Discard("totals too large")
+	if !inSum.IsUint64() || !outSum.IsUint64() {
+		ctx.Discard("a total overflows uint64")
 		return nil
 	}
 	if ref.Ambiguous(m) {
@@ -196,6 +196,16 @@ func checkID(ctx *pbt.Ctx, c IDCase) error {
 	}
 	ctx.Labelf("paid-enough(actual)=%v", ok)
 	ctx.Label("rel=" + c.Rel)
+	if two63 := new(big.Int).Lsh(big.NewInt(1), 63); inSum.Cmp(two63) >= 0 || outSum.Cmp(two63) >= 0 {
+		switch {
+		case inSum.Cmp(outSum) < 0:
+			ctx.Label("amounts>=2^63:inputs<outputs")
+		case new(big.Int).Sub(inSum, outSum).Cmp(two63) >= 0:
+			ctx.Label("amounts>=2^63:surplus>=2^63")
+		default:
+			ctx.Label("amounts>=2^63:surplus<2^63")
+		}
+	}
 	switch a, b := len(m.In) >= 253, len(m.Out) >= 253; {
 	case a && b:
 		ctx.Label("counts=both>=253")
@@ -412,6 +422,35 @@ func genDataOut(t *rapid.T, c *IDCase) ref.Out {
 	return ref.Out{Script: append(pre, gen.FillBytes(t, n, "payload")...)}
 }
 
+const maxU64 = ^uint64(0)
+
+// satAdd is a+b, saturating at 2^64-1.
+func satAdd(a, b uint64) uint64 {
+	if a > maxU64-b {
+		return maxU64
+	}
+	return a + b
+}
+
+// genHugeAmount draws an amount in the upper part of the uint64 range: around 2^62, on both
+// sides of 2^63 (where a signed 64-bit view changes sign) and just below 2^64.
+func genHugeAmount(t *rapid.T, label string) (uint64, string) {
+	k := rapid.Uint64Range(0, 1000000).Draw(t, label+"_k")
+	switch rapid.IntRange(0, 5).Draw(t, label+"_class") {
+	case 0:
+		return 1<<62 + k, "2^62+k"
+	case 1:
+		return 1<<63 - 1 - k, "2^63-1-k"
+	case 2:
+		return 1<<63 - 1, "2^63-1"
+	case 3:
+		return 1 << 63, "2^63"
+	case 4:
+		return 1<<63 + 1 + k, "2^63+1+k"
+	}
+	return maxU64 - k, "2^64-1-k"
+}
+
 func genIDCase(t *rapid.T) IDCase {
 	var c IDCase
 	c.Tx.Version = gen.U32(t, "version")
@@ -493,6 +532,18 @@ func genIDCase(t *rapid.T) IDCase {
 		}
 	}
 
+	// one output worth an amount in the upper half of the uint64 range (never a replicated one,
+	// the others stay small: the total of the outputs cannot overflow)
+	if nout > 0 && c.RepOut == 0 && rapid.IntRange(0, 19).Draw(t, "huge_out") == 13 {
+		v, class := genHugeAmount(t, "huge_out_v")
+		at := rapid.IntRange(0, nout-1).Draw(t, "huge_out_at")
+		if class == "2^64-1-k" { // right below the end of the range: the other outputs carry nothing
+			for i := range c.Tx.Out {
+				c.Tx.Out[i].Sats = 0
+			}
+		}
+		c.Tx.Out[at].Sats = v
+	}
 	// amounts: aim the input total at the exact fee of the actual or the estimated size
 	m := expandID(c)
 	outSum := ref.FeeSumOut(m).Uint64()
@@ -504,9 +555,16 @@ func genIDCase(t *rapid.T) IDCase {
 		target = fe.Uint64()
 		base = "estimated"
 	}
-	rel := rapid.SampledFrom([]string{"fee", "fee-1", "fee+1", "equal", "insufficient", "ample", "zero-inputs"}).Draw(t, "rel")
+	rel := rapid.SampledFrom([]string{"fee", "fee-1", "fee+1", "equal", "insufficient", "ample", "zero-inputs", "surplus>=2^62"}).Draw(t, "rel")
 	var total uint64
 	switch rel {
+	case "surplus>=2^62": // the whole upper range of the amount type, up to the last value the total can take
+		v, class := genHugeAmount(t, "surplus")
+		rel = "surplus=" + class
+		if total = satAdd(satAdd(outSum, target), v); total == maxU64 {
+			rel = "total=2^64-1-k"
+			total = maxU64 - rapid.Uint64Range(0, 1000000).Draw(t, "below_max")
+		}
 	case "fee":
 		total = outSum + target
 	case "fee-1":
@@ -527,7 +585,7 @@ func genIDCase(t *rapid.T) IDCase {
 			total = outSum - rapid.Uint64Range(1, outSum).Draw(t, "short")
 		}
 	case "ample":
-		total = outSum + target + rapid.Uint64Range(2, 1000000000000).Draw(t, "extra")
+		total = satAdd(outSum+target, rapid.Uint64Range(2, 1000000000000).Draw(t, "extra"))
 	default:
 		total = 0
 	}
